@@ -1,5 +1,7 @@
 (* decoder/json.go  cutFieldsBySize (json_max_fields_size), as repaired by ed38629
-   ("json_max_fields_size must cut the escaped string, not at its unescaped length").
+   ("json_max_fields_size must cut the escaped string, not at its unescaped length"), a08bbd4 (a string
+   named by two paths is cut once) and 86e6b5f (a path whose result is not a slice of the document is
+   ignored).
    For each configured path the harness hands over what gjson.GetBytes reported that the model does
    not compute itself: Index (offset of the value's opening quote) and len(Str) (length of the
    UNESCAPED string; it only decides WHETHER the field is cut).  The raw (still escaped) text of the
@@ -71,17 +73,35 @@ Definition json_cut_keep (content : bytes) (limit : Z) : res Z :=
   if len content <=? limit then Ok (len content) else json_cut_keep_from content 0 limit.
 
 (* ---- findPos --------------------------------------------------------------------------------------- *)
+(* one answer of gjson: Index, len(Str), the configured limit, Raw (the value as gjson returns it) *)
+Definition jfound : Type := Z * Z * Z * bytes.
+
+(* v.Index+len(v.Raw) > len(data) || string(data[v.Index:v.Index+len(v.Raw)]) != v.Raw  (86e6b5f): gjson
+   leaves Index at 0 when the result is not a slice of the document (a|@this, multipaths) *)
+Definition json_raw_at (data : bytes) (index : Z) (raw : bytes) : res bool :=
+  if len data <? index + len raw then Ok false
+  else s <- slice data index (index + len raw) ;; Ok (bytes_eqb s raw).
+
 (* !v.Exists() || v.Type != String are decided by the caller (the glue drops such paths);
-   start = Index + keep + 1, end = Index + rawLen; cut iff len(Str) > limit *)
-Definition json_cut_pos (data : bytes) (index strlen limit : Z) : res (option (Z * Z)) :=
+   cut iff len(Str) > limit and Raw stands at Index; rawLen = len(Raw) - 2, start = Index + keep + 1,
+   end = Index + rawLen.  The model re-finds the closing quote of the string at Index itself and insists
+   that gjson's Raw is exactly that string (BadOracle otherwise). *)
+Definition json_cut_pos (data : bytes) (index strlen limit : Z) (raw : bytes) : res (option (Z * Z)) :=
   if strlen <=? limit then Ok None
-  else match json_raw_len_at data index with
-       | None => BadOracle
-       | Some rawlen =>
-           content <- slice data (index + 1) (index + 1 + rawlen) ;;
-           keep <- json_cut_keep content limit ;;
-           Ok (Some (index + keep + 1, index + rawlen))
-       end.
+  else
+    here <- json_raw_at data index raw ;;
+    if negb here then Ok None
+    else
+      let rawlen := len raw - 2 in
+      match json_raw_len_at data index with
+      | None => BadOracle
+      | Some n =>
+          if negb (n =? rawlen) then BadOracle
+          else
+            content <- slice data (index + 1) (index + 1 + rawlen) ;;
+            keep <- json_cut_keep content limit ;;
+            Ok (Some (index + keep + 1, index + rawlen))
+      end.
 
 (* append(data[:start], data[end+1:]...) *)
 Definition json_cut_at (data : bytes) (pos : Z * Z) : res bytes :=
@@ -90,8 +110,8 @@ Definition json_cut_at (data : bytes) (pos : Z * Z) : res bytes :=
   Ok (a ++ b).
 
 (* the fast way: exactly one configured path *)
-Definition json_cut (data : bytes) (index strlen limit : Z) : res bytes :=
-  p <- json_cut_pos data index strlen limit ;;
+Definition json_cut (data : bytes) (index strlen limit : Z) (raw : bytes) : res bytes :=
+  p <- json_cut_pos data index strlen limit raw ;;
   match p with
   | None => Ok data
   | Some pos => json_cut_at data pos
@@ -105,11 +125,11 @@ Fixpoint insert_desc (p : Z * Z) (l : list (Z * Z)) : list (Z * Z) :=
   | q :: r => if fst q <? fst p then p :: l else q :: insert_desc p r
   end.
 Definition sort_desc (l : list (Z * Z)) : list (Z * Z) := fold_right insert_desc [] l.
-Fixpoint json_find_all (data : bytes) (found : list (Z * Z * Z)) : res (list (Z * Z)) :=
+Fixpoint json_find_all (data : bytes) (found : list jfound) : res (list (Z * Z)) :=
   match found with
   | [] => Ok []
-  | (index, strlen, limit) :: r =>
-      p <- json_cut_pos data index strlen limit ;;
+  | (index, strlen, limit, raw) :: r =>
+      p <- json_cut_pos data index strlen limit raw ;;
       ps <- json_find_all data r ;;
       Ok (match p with Some p => p :: ps | None => ps end)
   end.
@@ -126,7 +146,7 @@ Fixpoint json_cut_all (data : bytes) (ps : list (Z * Z)) : res bytes :=
       | [] => d <- json_cut_at data p ;; json_cut_all d r
       end
   end.
-Definition json_cut_many (data : bytes) (found : list (Z * Z * Z)) : res bytes :=
+Definition json_cut_many (data : bytes) (found : list jfound) : res bytes :=
   ps <- json_find_all data found ;;
   json_cut_all data (sort_desc ps).
 
@@ -159,6 +179,10 @@ Fixpoint esc_valid (l : bytes) : bool :=
       else esc_valid r
   end.
 
+(* Raw occurs in the document at offset index *)
+Definition raw_occurs_at (data : bytes) (index : Z) (raw : bytes) : Prop :=
+  exists a b, data = a ++ raw ++ b /\ len a = index.
+
 (* how many bytes of the raw text of a string survive: all of them when the unescaped length fits *)
 Definition json_kept (raw : bytes) (strlen limit : Z) : nat :=
   if strlen <=? limit then length raw
@@ -177,7 +201,7 @@ Fixpoint json_fields_doc (fs : list (bytes * bytes)) : bytes :=
 
 (* several limited strings: (raw text, the bytes that follow it up to the next one, len(Str), a limit,
    further limits given for the SAME string by other paths); the document, what gjson reports (one
-   answer per path; the first opening quote is at offset [at_]), the result: every string is cut by the
+   answer per path, Raw = the quoted text; the first opening quote is at offset [at_]), the result: every string is cut by the
    smallest of its limits *)
 Definition jfield : Type := bytes * bytes * Z * Z * list Z.
 Definition jf_limit (limit : Z) (more : list Z) : Z := fold_right Z.min limit more.
@@ -186,11 +210,12 @@ Definition jf_doc (fs : list jfield) : bytes :=
 Definition jf_cut (fs : list jfield) : bytes :=
   json_fields_doc (map (fun '(raw, post, strlen, limit, more) =>
                           (firstn (json_kept raw strlen (jf_limit limit more)) raw, post)) fs).
-Fixpoint jf_found (at_ : Z) (fs : list jfield) : list (Z * Z * Z) :=
+Fixpoint jf_found (at_ : Z) (fs : list jfield) : list jfound :=
   match fs with
   | [] => []
   | (raw, post, strlen, limit, more) :: r =>
-      map (fun l => (at_, strlen, l)) (limit :: more) ++ jf_found (at_ + len raw + 2 + len post) r
+      @map Z jfound (fun l => (at_, strlen, l, QUOTE :: raw ++ [QUOTE])) (limit :: more)
+      ++ jf_found (at_ + len raw + 2 + len post) r
   end.
 Definition jf_ok (f : jfield) : Prop :=
   let '(raw, _, _, limit, more) := f in esc_valid raw = true /\ 0 <= limit /\ Forall (fun l => 0 <= l) more.
@@ -258,14 +283,20 @@ Fixpoint split_fields (data : bytes) (at_ : Z) (strs : list (Z * Z)) : option (b
       else None
   end.
 
-Definition json_named_strings (data : bytes) (found : list (Z * Z * Z)) : option (list (Z * Z)) :=
-  fold_right (fun '(index, _, _) acc =>
-                match acc, json_raw_len_at data index with
-                | Some l, Some rawlen => Some (insert_asc (index, rawlen) l)
+(* an answer whose Raw does not stand at Index names nothing in place *)
+Definition json_named_strings (data : bytes) (found : list jfound) : option (list (Z * Z)) :=
+  fold_right (fun '(index, _, _, raw) acc =>
+                match acc, json_raw_at data index raw with
+                | Some l, Ok true =>
+                    match json_raw_len_at data index with
+                    | Some rawlen => if rawlen =? len raw - 2 then Some (insert_asc (index, rawlen) l) else None
+                    | None => None
+                    end
+                | Some l, Ok false => Some l
                 | _, _ => None
                 end) (Some []) found.
 
-Definition json_cut_framed (data : bytes) (found : list (Z * Z * Z)) (out : bytes) : option bool :=
+Definition json_cut_framed (data : bytes) (found : list jfound) (out : bytes) : option bool :=
   match json_named_strings data found with
   | Some strs =>
       match split_fields data 0 strs with
